@@ -332,9 +332,10 @@ bool Xml::Private::parse(const char* data, Element& element)
       if(*end == '?')
         pos.pos = end + 1;
       else
-      {
-        pos.pos = end; // a line break: skipSpace counts it
-        skipSpace();
+      { // a line break (counted here: skipSpace would also skip what looks like a comment)
+        pos.pos = end + (*end == '\r' && end[1] == '\n' ? 2 : 1);
+        ++pos.line;
+        pos.lineStart = pos.pos;
       }
     }
     skipSpace();
